@@ -140,7 +140,7 @@ def handleEvent (d : DS) (toks : List String) : DS × String :=
           | none =>
             -- the regenerated early exit and the model's gate must agree
             if Gen.fetchTailUpToDate m d.pos != decide (m ≤ d.pos) then fail d "regenerated up-to-date test differs"
-            else if Gen.gateSkipsEmpty t != decide (t = 0) then fail d "regenerated empty-root test differs"
+            else if (Gen.verifyConsistencyChain t false true true == 0) != decide (t = 0) then fail d "regenerated empty-root test differs"
             else match gate d.noCheck t m d.pos true, gate d.noCheck t m d.pos false with
               | .upToDate, _ => ok { d with phase := .idle, lastOk := true }
               | .proceed, .proceed => ok (beginFetch d t m)
